@@ -62,7 +62,9 @@ LogOps   == {"&&", "||"}
 (*       annotated node (all) or for the nodes whose index pi is in only.  *)
 (*       Because context widths are maxima of sizes (5.4.1) this raises    *)
 (*       every context width to Migen's width of the sub-expression.       *)
-(*   neg : a literal written -N'dV is read as the signed literal -N'sdV.   *)
+(*   neg : a literal written -N'dV is read as the signed literal -N'sdV    *)
+(*       (how the back end printed negative constants before the repair;   *)
+(*       it now prints N'sdV, which needs no hypothesis).                  *)
 (*   bel : every operator node whose two context partners (operands of     *)
 (*       + - * & | ^, of a comparison, branches of ?:) differ in type       *)
 (*       promotes its unsigned partner as $signed({1'd0, partner}) - what   *)
@@ -72,7 +74,11 @@ LogOps   == {"&&", "||"}
 (*       operand).                                                         *)
 (*   cl  : the items of a case statement are read as the integers they     *)
 (*       denote in FHDL (N'dV = V, -N'dV = -V) and compared with the        *)
-(*       selector in the selector's own type.                              *)
+(*       selector in the selector's own type.  Only where the defect this  *)
+(*       hypothesis names can be present at all: a SIGNED selector with at *)
+(*       least one unsigned item (9.5 then compares everything unsigned);  *)
+(*       a case statement whose selector and items are all signed (what    *)
+(*       the repaired back end prints for a signed test) is read plainly.  *)
 (***************************************************************************)
 Plain == [all |-> FALSE, only |-> {}, neg |-> FALSE, bel |-> FALSE, cl |-> FALSE]
 Ideal == [Plain EXCEPT !.all = TRUE]
@@ -364,12 +370,13 @@ CaseW(s, D, M) == LET a == CaseAll(s)
                       Mx(i) == IF i > Len(a) THEN 0 ELSE Max(Size(a[i], D, M), Mx(i + 1))
                   IN Mx(1)
 CaseS(s, D, M) == LET a == CaseAll(s) IN \A i \in 1..Len(a) : Sgn(a[i], D, M)
-LabelInt(l) == IF l.k = "un" /\ l.op = "-" /\ l.a.k = "num" THEN 0 - l.a.v ELSE l.v
+LabelInt(l) == IF l.k = "un" /\ l.op = "-" /\ l.a.k = "num" THEN 0 - l.a.v
+               ELSE IF l.s = 1 THEN ToInt(l.v % P2(l.w), l.w) ELSE l.v                \* N'sdV: two's complement
 (* index of the item selected (0 = none) *)
 CaseSel(s, i, dflt, D, V, M) ==
   IF i > Len(s.items) THEN dflt
   ELSE IF "l" \notin DOMAIN s.items[i] THEN CaseSel(s, i + 1, i, D, V, M)
-  ELSE IF M.cl
+  ELSE IF M.cl /\ Sgn(s.e, D, M) /\ ~CaseS(s, D, M)
   THEN LET W == Size(s.e, D, M)
            S == Sgn(s.e, D, M)
            x == Ev(s.e, W, S, D, V, M)
